@@ -465,7 +465,7 @@ pub fn render(g: &G) -> String {
         Rec(id, a) => format!("recursive(|r{}| {})", id, r(a)),
         RecRef(id) => format!("r{}", id),
         Lazy(a) => format!("{}.lazy()", r(a)),
-        StPush(a, t) => format!("{}.map_with(push {})", r(a), t),
+        StPush(a, t) => format!("{}.validate(push {})", r(a), t),
         StObs(a) => format!("{}.map_with(state)", r(a)),
         WithState(a, s) => format!("{}.with_state({})", r(a), s),
         WithCtx(a, s) => format!("{}.with_ctx({:?})", r(a), s),
